@@ -196,7 +196,7 @@ def bounded(tier, seed, procs):
     exprs = domain(tier)
     es = envs(tier, seed)
     if tier == "quick":
-        es = es[::3] + es[-6:]
+        es = trees.thin(es, max(1, len(es) // 3), seed=1) + es[-6:]
     import pymbolic.primitives as p
     for e in exprs:
         heavy = any(t in repr(e) for t in ("Power", "LeftShift"))
